@@ -18,6 +18,7 @@
 package core
 
 import (
+	"fmt"
 	"os"
 
 	"github.com/spf13/viper"
@@ -114,7 +115,9 @@ func configureCoordinators(app *protocol.ApplicationContext, coordinators []prot
 	// Catch panics here and flag in the application context if we can't continue
 	defer func() {
 		if r := recover(); r != nil {
-			app.Logger.Panic(r.(string))
+			// The recovered value may be a string, an error, or anything else a Configure method panicked with. Log
+			// it and flag the configuration as invalid. Do not panic again, so that Start can return a failure.
+			app.Logger.Error("invalid configuration", zap.String("error", fmt.Sprintf("%v", r)))
 			app.ConfigurationValid = false
 		}
 	}()
